@@ -579,20 +579,58 @@ def check_rank_test(ctx):
     if not a or not b:
         raise AnalysisError("C01.6: the rank tests (len(obj.shape) against len(cls.dims)) were not found on both sides of the multi-axis dispatch")
 
-    def rejects(n):
+    def branch_verdict(n, edge):
+        """'reject' | 'accept' | 'unknown' | None for the return the given branch of the test leads to directly"""
         for k, s_ in n.succ:
-            if k == "t" and s_.kind == "return" and (isinstance(s_.ast.value, ast.JoinedStr) or (isinstance(s_.ast.value, ast.Constant) and s_.ast.value.value)):
-                return True
-        return False
+            if k == edge and s_.kind == "return":
+                v = s_.ast.value
+                if isinstance(v, ast.JoinedStr) or (isinstance(v, ast.Constant) and isinstance(v.value, str) and v.value):
+                    return "reject"
+                if isinstance(v, ast.Constant) and v.value == "":
+                    return "accept"
+                return "unknown"
+        return None
 
-    ta = norm(a[0].ast)
-    if ta in ("len(obj.shape) != len(cls.dims)", "len(cls.dims) != len(obj.shape)") and rejects(a[0]):
-        ctx.ok("C01.6", f.qualname, "no multi-axis specifier: reject iff len(shape) != len(dims)")
-    else:
-        ctx.bad("C01.6", f, a[0].ast, f"without a multi-axis specifier the rank test is `{ta}`; it must reject exactly when the ranks differ")
-    tb = norm(b[0].ast)
-    if tb in ("len(obj.shape) < len(cls.dims) - 1", "len(cls.dims) - 1 > len(obj.shape)", "len(obj.shape) + 1 < len(cls.dims)", "len(obj.shape) <= len(cls.dims) - 2") and rejects(b[0]):
-        ctx.ok("C01.6", f.qualname, "multi-axis specifier: reject iff len(shape) < len(dims) - 1 (zero or more axes)")
-    else:
-        ctx.bad("C01.6", f, b[0].ast, f"with a multi-axis specifier the rank test is `{tb}`; '*name'/'...' stand for ZERO or more axes, so it must reject exactly when "
-                "len(shape) < len(dims) - 1")
+    def table(test):
+        """truth of the rank test for every (rank of the array, number of dims) in 0..6 x 0..6, or None if the test uses
+        anything but the two lengths, integers, + - and comparisons"""
+        def ev(e, s_, d_):
+            t_ = norm(e)
+            if t_ == "len(obj.shape)":
+                return s_
+            if t_ == "len(cls.dims)":
+                return d_
+            if isinstance(e, ast.Constant) and isinstance(e.value, int) and not isinstance(e.value, bool):
+                return e.value
+            if isinstance(e, ast.BinOp) and isinstance(e.op, (ast.Add, ast.Sub)):
+                l, r_ = ev(e.left, s_, d_), ev(e.right, s_, d_)
+                return l + r_ if isinstance(e.op, ast.Add) else l - r_
+            if isinstance(e, ast.UnaryOp) and isinstance(e.op, ast.Not):
+                return not ev(e.operand, s_, d_)
+            if isinstance(e, ast.Compare) and len(e.ops) == 1:
+                l, r_ = ev(e.left, s_, d_), ev(e.comparators[0], s_, d_)
+                return {ast.Eq: l == r_, ast.NotEq: l != r_, ast.Lt: l < r_, ast.LtE: l <= r_, ast.Gt: l > r_, ast.GtE: l >= r_}[type(e.ops[0])]
+            raise ValueError(t_)
+
+        try:
+            return {(s_, d_): bool(ev(test, s_, d_)) for s_ in range(7) for d_ in range(7)}
+        except (ValueError, KeyError, TypeError):
+            return None
+
+    for node, want, label, why in ((a[0], lambda s_, d_: s_ != d_, "without a multi-axis specifier", "it must reject exactly when the ranks differ"),
+                                   (b[0], lambda s_, d_: s_ < d_ - 1, "with a multi-axis specifier",
+                                    "'*name'/'...' stand for ZERO or more axes, so it must reject exactly when len(shape) < len(dims) - 1")):
+        tab = table(node.ast)
+        vt, vf = branch_verdict(node, "t"), branch_verdict(node, "f")
+        if tab is None or (vt == "reject" and vf == "reject"):
+            raise AnalysisError(f"C01.6: the rank test `{norm(node.ast)}` / the verdict of its branches has a form the rule does not interpret")
+        rej_truth = True if vt == "reject" else False if vf == "reject" else None
+        if rej_truth is None:
+            raise AnalysisError(f"C01.6: neither branch of the rank test `{norm(node.ast)}` rejects directly")
+        wrong = [(s_, d_) for (s_, d_), v in sorted(tab.items()) if (v == rej_truth) != bool(want(s_, d_)) and (node is a[0] or d_ >= 1)]
+        if wrong:
+            s_, d_ = wrong[0]
+            ctx.bad("C01.6", f, node.ast, f"{label} the rank test is `{norm(node.ast)}`; {why} (e.g. an array of rank {s_} against {d_} dims is "
+                    f"{'rejected' if tab[(s_, d_)] == rej_truth else 'not rejected'})")
+        else:
+            ctx.ok("C01.6", f.qualname, f"{label}: `{norm(node.ast)}` rejects exactly the rank pairs it must (49 pairs)")
